@@ -360,7 +360,7 @@ func spellStr(c LitCase) (lit string, used []byte, ok bool) {
 
 func genLit(t *rapid.T) LitCase {
 	var c LitCase
-	switch k := rapid.IntRange(0, 19).Draw(t, "kind"); {
+	switch k := uniform(t, 20, "kind"); {
 	case k < 6:
 		c = genInt(t)
 	case k < 8:
@@ -372,7 +372,7 @@ func genLit(t *rapid.T) LitCase {
 	default:
 		c = genStr(t)
 	}
-	c.Ctx = rapid.IntRange(0, len(litCtx)-1).Draw(t, "ctx")
+	c.Ctx = uniform(t, len(litCtx), "ctx")
 	return c
 }
 
